@@ -1000,13 +1000,23 @@ impl Exec {
             }
             Step::Checkpoint => {
                 self.ckpt_counter += 1;
-                let cdir = self.dir.with_extension(format!("ckpt{}", self.ckpt_counter));
-                let _ = std::fs::remove_dir_all(&cdir);
+                // every other checkpoint goes into the directory of the previous one (a "latest"
+                // backup directory that is written over)
+                let cdir = match &self.checkpoint {
+                    Some((prev, _)) if self.ckpt_counter % 2 == 0 => prev.clone(),
+                    _ => {
+                        let c = self.dir.with_extension(format!("ckpt{}", self.ckpt_counter));
+                        let _ = std::fs::remove_dir_all(&c);
+                        c
+                    }
+                };
                 if let Err(e) = self.tree().create_checkpoint(&cdir) {
                     viol!(self, "checkpoint", "create_checkpoint failed: {e}");
                 }
                 if let Some((old, _)) = self.checkpoint.take() {
-                    let _ = std::fs::remove_dir_all(old);
+                    if old != cdir {
+                        let _ = std::fs::remove_dir_all(old);
+                    }
                 }
                 self.checkpoint = Some((cdir.clone(), self.model.last_seq()));
                 self.stats.checkpoints += 1;
